@@ -18,8 +18,13 @@ T3 == << <<"changed", "r">>, <<"get", "q">>, <<"time">>, <<"edge", "q", 1>>, <<"
 T4 == << <<"set", "a", 1>>, <<"delay", 8>>, <<"set", "a", 0>>, <<"tick">>, <<"set", "a", 1>>, <<"delay", 13>>, <<"set", "b", 1>>,
          <<"tick">>, <<"tick">>, <<"get", "rq">> >>
 T5 == << <<"changed", "x">>, <<"time">>, <<"get", "y">>, <<"edge", "x", 0>>, <<"time">>, <<"changed", "x">>, <<"time">> >>
-AllScriptSets == {<<S1>>, <<S2>>, <<S3>>, <<T1, T2>>, <<T2, T1>>, <<T3, T4>>, <<T4, T3>>, <<T4, T5>>, <<T5, T4, T3>>}
-QuickScriptSets == {<<S1>>, <<S2>>, <<T1, T2>>, <<T2, T1>>, <<T3, T4>>, <<T4, T5>>}
+(* a wake-up chain inside one instant: T6 and T8 wake on the same delay, T6 writes, which wakes T7 (added between *)
+(* them): the order must be T6, T7, T8, so T8 sees T7's write                                                    *)
+T6 == << <<"delay", 7>>, <<"set", "a", 1>>, <<"get", "x">> >>
+T7 == << <<"changed", "x">>, <<"set", "b", 1>>, <<"get", "y">> >>
+T8 == << <<"delay", 7>>, <<"get", "y">>, <<"get", "x">>, <<"tick">>, <<"get", "rq">> >>
+AllScriptSets == {<<S1>>, <<S2>>, <<S3>>, <<T1, T2>>, <<T2, T1>>, <<T3, T4>>, <<T4, T3>>, <<T4, T5>>, <<T5, T4, T3>>, <<T6, T7, T8>>, <<T8, T7, T6>>}
+QuickScriptSets == {<<S1>>, <<S2>>, <<T1, T2>>, <<T2, T1>>, <<T3, T4>>, <<T4, T5>>, <<T6, T7, T8>>}
 OneScriptSet == {<<S1>>}
 TwoTbSets == {<<T1, T2>>}
 AllFns == 0..15
